@@ -248,6 +248,10 @@ func (c *Chain) submitDeposits(b *builder) {
 			amount = spec.MIN_DEPOSIT_AMOUNT + common.Gwei(rng.Int63n(int64(8*gwei))) // needs top-ups to activate
 		case 1:
 			amount += common.Gwei(rng.Int63n(int64(4 * gwei)))
+		case 2, 3:
+			if spec.MAX_EFFECTIVE_BALANCE != 32*gwei { // configurations with an unusual cap: many deposits above it
+				amount += gwei + common.Gwei(rng.Int63n(int64(40*gwei)))
+			}
 		}
 		c.submitDeposit(c.MakeDeposit(k, creds(k), amount, k), depNew, k)
 	}
@@ -297,7 +301,7 @@ func (c *Chain) submitDeposits(b *builder) {
 		amount := gwei + common.Gwei(rng.Int63n(int64(3*gwei)))
 		if len(low) > 0 && rng.Intn(3) > 0 {
 			v = low[rng.Intn(len(low))]
-			amount = 16 * gwei
+			amount = spec.MAX_EFFECTIVE_BALANCE / 2
 		}
 		k := b.key(v)
 		d := common.DepositData{Pubkey: c.Keys.Pubkey(k), WithdrawalCredentials: c.rndRoot(), Amount: amount}
@@ -402,6 +406,9 @@ func (b *builder) deposits(body BodyRef, eth1 common.Eth1Data) error {
 			}
 		}
 		b.op(OpInfo{Kind: kind, Index: int(i), Detail: det})
+		if kind == OpDepositNew && c.Contract.Data[di].Amount > c.Spec.MAX_EFFECTIVE_BALANCE {
+			b.count("deposit_new_above_cap:" + b.fork.String())
+		}
 	}
 	return nil
 }
@@ -1110,6 +1117,9 @@ func (b *builder) fillPayload(blk *SignedBlock, body BodyRef) error {
 	}
 	if b.fork >= Deneb {
 		n := nBlobs
+		if m := int(spec.MAX_BLOBS_PER_BLOCK); m > 6 && !b.mix.PayloadEdge {
+			n = n * m / 2 // configurations with a large blob limit: 0, m/2, m commitments
+		}
 		if m := int(spec.MAX_BLOBS_PER_BLOCK); n > m {
 			n = m
 		}
@@ -1188,6 +1198,7 @@ func (c *Chain) commit(work common.BeaconState, epc *common.EpochsContext, step 
 		}
 		if epoch%spec.SlotToEpoch(spec.SLOTS_PER_HISTORICAL_ROOT) == 0 {
 			ct.HistoricalAccumulations++
+			ct.Ops["historical_accumulation:"+ForkOfState(step.Pre).String()]++ // the fork whose epoch processing did it
 		}
 		for s := range c.duties {
 			if s+3*spec.SLOTS_PER_EPOCH < step.Slot {
@@ -1308,6 +1319,9 @@ func (c *Chain) countShapes(step *Step) {
 		}
 		if body.BlobKZGCommitments != nil {
 			full("blobs", len(*body.BlobKZGCommitments), spec.MAX_BLOBS_PER_BLOCK)
+			if len(*body.BlobKZGCommitments) >= 7 {
+				ct.Ops["blobs:7+"]++
+			}
 		}
 	}
 	if f, ok := forkBoundary(spec, step.Slot); ok {
